@@ -235,6 +235,7 @@ def run(ctx: Ctx) -> None:
 
     # ---- ancestor queries: the answer is a function of (path, tag), whatever was asked before ------
     import re as _re
+    acases, araw = [], []
     for name in list(srcs)[:ctx.n(12, 200)]:
         ep, nodes, root_entry = lark_roots[name]
         paths = [n.full_path for n in ep.procedural() if '__empty__' not in n.full_path]      # (placeholders of absent optional parts are not nodes)
@@ -251,10 +252,17 @@ def run(ctx: Ctx) -> None:
                     got = nodes.ancestor(via, tag).full_path
                 except Exception as e:
                     got = 'ERR ' + type(e).__name__
+                if len(acases) < ctx.n(300, 6000):
+                    acases.append(coq_pair(coq_str(via), coq_str(tag), coq_opt(None if got.startswith('ERR') else coq_str(got))))
+                    araw.append(dict(via=via, tag=tag, result=got))
                 if got != want:
                     ctx.violation('ancestor', 'Nodes.ancestor(path, tag) is not the nearest entry with that tag on the path (it depends on earlier queries or picks another entry)',
                                   dict(input=dict(kind='ancestor', source=srcs.get(name), via=via, tag=tag, asked_before=asked[:asked.index(tag)]), oracle_result=want, impl_result=got))
                     break
+
+    ctx.correspond('ancestor_queries', IMPORTS, 'str * str * option str',
+                   'fun c => match c with (q, tag, w) => match parse q with Some p => match ancestor p tag, w with Some a, Some x => str_eqb (render a) x | None, None => true | _, _ => false end | None => false end end',
+                   acases, araw, shard=300)
 
     # ---- resolution order independence on real node resolvers ------------------------------------
     perms = ctx.n(3, 20)
